@@ -461,4 +461,3 @@ func TestC18Sequential(t *testing.T) {
 		sim.Case("sequential", sim.HashOf(ops), nontrivial, cls, func() interface{} { return ops })
 	})
 }
-
